@@ -380,3 +380,261 @@ Lemma next_consumes s x s' : next s = (ROk (Some x), s') -> (inbound_len s' + 4 
 Proof.
   intro E. destruct (next_post_thm s) as [H _]. rewrite E in H. exact H.
 Qed.
+
+(* ================= writers, callbacks, the command loop (generic in the allowed panics) ======= *)
+
+Section Generic.
+Variable P : site -> Prop.
+Variable fpext : N -> N.
+Variable fptrunc : N -> N.
+Variable errtab : N -> option (N * bytes).
+Hypothesis HFragSeq : P PFragSeq.
+Hypothesis HSplitNull : P PParamsSplitNull.
+Hypothesis HSplitTypes : P PParamsSplitTypes.
+Hypothesis HBadType : P PParamsBadType.
+Hypothesis HBoundIndex : P PParamsBoundIndex.
+Hypothesis HValue : P PParamsValue.
+Hypothesis HConv : P PConv.
+Hypothesis HConvOverflow : P PConvOverflow.
+Hypothesis HNullBin : P PNullBin.
+Hypothesis HFromU16 : P PFromU16.
+
+Lemma to_text_P v : RP P (to_text v).
+Proof. apply to_text_np. Qed.
+Lemma to_bin_P v c : RP P (to_bin v c).
+Proof. apply to_bin_np. exact HNullBin. Qed.
+Lemma params_next_P p : RP P (params_next fpext p).
+Proof. apply params_next_np; assumption. Qed.
+Lemma convert_P k v : RP P (convert fptrunc k v).
+Proof. apply convert_np; assumption. Qed.
+
+#[local] Hint Resolve to_text_P to_bin_P params_next_P convert_P : np.
+#[local] Hint Resolve W_ret W_fail W_log_call W_log_api W_set_seq W_park W_t_write W_t_flush
+  W_end_packet W_write_all W_flush W_send W_send_all : wdb.
+
+(* split a match in a W goal; for a [res] scrutinee remember which panics it may raise *)
+Ltac wmatch :=
+  match goal with
+  | |- W P (match ?x with _ => _ end) =>
+      lazymatch type of x with
+      | res _ =>
+          let H := fresh "HR" in
+          assert (H : RP P x) by auto with np; revert H; destruct x; intro H; cbn [RP] in H
+      | _ => destruct x
+      end
+  end.
+Ltac wstep :=
+  first
+    [ assumption
+    | solve [auto 1 with wdb]
+    | lazymatch goal with |- W P (panic _) => apply W_panic; assumption end
+    | lazymatch goal with |- W P (attempt _) => apply W_attempt end
+    | lazymatch goal with |- W P (park_on_err _) => apply W_park_on_err end
+    | lazymatch goal with |- W P (bind _ _) => apply W_bind; [| intro; cbv beta] end
+    | match goal with H : context [W P _] |- _ => apply H end
+    | wmatch
+    | progress cbv beta zeta ].
+Ltac wauto := repeat wstep.
+
+Lemma W_write_err code msg : W P (write_err errtab code msg).
+Proof. unfold write_err. wauto. Qed.
+Lemma W_finalize q more : W P (finalize q more).
+Proof. unfold finalize. wauto. Qed.
+Lemma W_drop_q q : W P (drop_q q).
+Proof. unfold drop_q. apply W_park_on_err, W_finalize. Qed.
+#[local] Hint Resolve W_write_err W_finalize W_drop_q : wdb.
+
+Lemma W_write_col w v : W P (write_col w v).
+Proof. unfold write_col. wauto. Qed.
+Lemma W_end_row w : W P (end_row w).
+Proof. unfold end_row. wauto. Qed.
+#[local] Hint Resolve W_write_col W_end_row : wdb.
+Lemma W_finish_inner w c : W P (finish_inner w c).
+Proof. unfold finish_inner. wauto. Qed.
+#[local] Hint Resolve W_finish_inner : wdb.
+Lemma W_drop_rw w : W P (drop_rw w).
+Proof. unfold drop_rw. wauto. Qed.
+Lemma W_write_cols vs : forall w, W P (write_cols w vs).
+Proof. induction vs as [|v r IH]; intro w; cbn [write_cols]; wauto. Qed.
+#[local] Hint Resolve W_drop_rw W_write_cols : wdb.
+Lemma W_write_row w vs : W P (write_row w vs).
+Proof. unfold write_row. wauto. Qed.
+Lemma W_api_ret m : W P m -> W P (api_ret m).
+Proof. intro H. unfold api_ret. wauto. Qed.
+Lemma W_lapi quiet r : W P (lapi quiet r).
+Proof. unfold lapi. wauto. Qed.
+Lemma W_ret_tag t : W P (ret_tag t).
+Proof. unfold ret_tag. wauto. Qed.
+#[local] Hint Resolve W_write_row W_lapi W_ret_tag : wdb.
+
+Lemma W_run_qr quiet :
+  (forall p q, W P (run_q errtab quiet q p)) /\ (forall p w, W P (run_r errtab quiet w p)).
+Proof.
+  apply qr_mutind; intros; cbn [run_q run_r]; wauto.
+Qed.
+Lemma W_run_q quiet q p : W P (run_q errtab quiet q p).
+Proof. apply W_run_qr. Qed.
+#[local] Hint Resolve W_run_q : wdb.
+
+(* callbacks *)
+Lemma W_on_query q s : W P (on_query errtab q s).
+Proof. unfold on_query. destruct s as [st sc]. destruct (pop_q sc) as [[prog tag] sc']. wauto. Qed.
+Lemma W_on_init schema s : W P (on_init errtab schema s).
+Proof.
+  unfold on_init. destruct s as [st sc]. destruct (pop_i sc) as [[prog tag] sc'].
+  apply W_bind; [apply W_log_call | intro].
+  apply W_bind; [| intro; wauto].
+  destruct prog; wauto; apply W_api_ret; wauto.
+Qed.
+Lemma W_on_prepare q s : W P (on_prepare errtab q s).
+Proof.
+  unfold on_prepare. destruct s as [st sc]. destruct (pop_p sc) as [[prog tag] sc'].
+  apply W_bind; [apply W_log_call | intro].
+  destruct prog; wauto; apply W_api_ret; wauto.
+Qed.
+Lemma W_pull_params fuel : forall n convs p, W P (pull_params fpext fptrunc fuel n convs p).
+Proof.
+  induction fuel as [|f IH]; intros n convs p; cbn [pull_params]; wauto.
+Qed.
+#[local] Hint Resolve W_on_query W_on_init W_on_prepare W_pull_params : wdb.
+Lemma W_on_execute id sd params sc : W P (on_execute fpext fptrunc errtab id sd params sc).
+Proof. unfold on_execute. destruct (pop_x sc) as [x sc']. wauto. Qed.
+#[local] Hint Resolve W_on_execute : wdb.
+
+Lemma W_handle cmd s : W P (handle fpext fptrunc errtab cmd s).
+Proof. unfold handle. destruct s as [st sc]. destruct cmd; wauto. Qed.
+
+(* safe from every state with at most n inbound bytes *)
+Definition SF (n : nat) {A} (m : M A) : Prop :=
+  forall s, (ilen s <= n)%nat -> RP P (fst (m s)).
+Lemma SF_W n {A} (m : M A) : W P m -> SF n m.
+Proof. intros H s _. apply H. Qed.
+Lemma SF_bind_W n {A B} (m : M A) (f : A -> M B) :
+  W P m -> (forall a, SF n (f a)) -> SF n (bind m f).
+Proof.
+  intros Hm Hf s Hs. unfold bind. destruct (Hm s) as [H1 H2].
+  destruct (m s) as [[a|e|p] s']; cbn [fst snd] in *; [|exact I|exact H1].
+  apply Hf. lia.
+Qed.
+Lemma SF_bind_next n {B} (f : option (N * bytes) -> M B) :
+  SF n (f None) -> (forall x m, (m + 4 <= n)%nat -> SF m (f (Some x))) -> SF n (bind next f).
+Proof.
+  intros H0 H1 s Hs. unfold bind. destruct (next_post_thm s) as [Ha Hb].
+  destruct (next s) as [[[x|]|e|p] s1]; cbn [fst snd] in *.
+  - apply (H1 x (ilen s1)); lia.
+  - apply H0; lia.
+  - exact I.
+  - subst p. exact HFragSeq.
+Qed.
+
+Lemma run_f_safe fuel : forall ss n, (n < fuel)%nat -> SF n (run_f fpext fptrunc errtab fuel ss).
+Proof.
+  induction fuel as [|f IH]; intros ss n Hlt; [lia|].
+  cbn [run_f]. apply SF_bind_next.
+  - apply SF_W, W_ret.
+  - intros [q pkt] m Hm. apply SF_bind_W; [apply W_set_seq | intros _].
+    destruct (parse pkt) as [cmd|]; [|apply SF_W, W_fail].
+    assert (Hgen : SF m (s' <- handle fpext fptrunc errtab cmd ss ;;
+                         flush ;;; run_f fpext fptrunc errtab f s')).
+    { apply SF_bind_W; [apply W_handle | intro s'].
+      apply SF_bind_W; [apply W_flush | intros _]. apply IH. lia. }
+    destruct cmd; try exact Hgen. apply SF_W, W_ret.
+Qed.
+
+Lemma NI_next : NI P next.
+Proof.
+  intro s. destruct (next_post_thm s) as [Ha Hb]. split; [|exact Hb].
+  destruct (fst (next s)) as [x|e|p]; [exact I | exact I | subst p; exact HFragSeq].
+Qed.
+Lemma NI_init cfg : NI P (init errtab cfg).
+Proof.
+  unfold init.
+  apply NI_bind; [apply W_NI, W_write_all | intros _].
+  apply NI_bind; [apply W_NI, W_flush | intros _].
+  apply NI_bind; [apply NI_next | intros r].
+  apply W_NI. wauto.
+Qed.
+
+Lemma run_on_safe cfg sc w : RP P (fst (run_on fpext fptrunc errtab cfg sc w)).
+Proof.
+  unfold run_on, bind. destruct (NI_init cfg w) as [H1 H2].
+  destruct (init errtab cfg w) as [[a|e|p] s']; cbn [fst snd] in *; [|exact I|exact H1].
+  apply (run_f_safe (S (ilen w)) ([], sc) (ilen s')); lia.
+Qed.
+
+End Generic.
+
+(* the allowed panics of a whole connection: client_sites ++ shim_sites below *)
+Definition okp (p : site) : Prop :=
+  In p [PFragSeq; PParamsSplitNull; PParamsSplitTypes; PParamsBadType; PParamsBoundIndex;
+        PParamsValue; PConv; PConvOverflow; PNullBin; PFromU16].
+Lemma RP_okp_fuel {A} (r : res A) : RP okp r -> r <> RPanic POutOfFuel.
+Proof.
+  intros H E. subst r. unfold RP, okp in H. cbn [In] in H.
+  repeat (destruct H as [H|H]; [discriminate|]). exact H.
+Qed.
+Ltac okp_hyps := unfold okp; cbn [In]; tauto.
+
+Section WithOracles.
+Variable fpext : N -> N.
+Variable fptrunc : N -> N.
+Variable errtab : N -> option (N * bytes).
+
+(* writer programs and callbacks never touch the inbound side and never run out of fuel *)
+Lemma run_q_total quiet q p s :
+  fst (run_q errtab quiet q p s) <> RPanic POutOfFuel /\
+  inbound_len (snd (run_q errtab quiet q p s)) = inbound_len s.
+Proof.
+  destruct (W_run_q okp errtab ltac:(okp_hyps) ltac:(okp_hyps) quiet q p s) as [H1 H2].
+  split; [apply RP_okp_fuel, H1 | exact H2].
+Qed.
+Lemma handle_total cmd ss s :
+  fst (handle fpext fptrunc errtab cmd ss s) <> RPanic POutOfFuel /\
+  inbound_len (snd (handle fpext fptrunc errtab cmd ss s)) = inbound_len s.
+Proof.
+  destruct (W_handle okp fpext fptrunc errtab ltac:(okp_hyps) ltac:(okp_hyps) ltac:(okp_hyps)
+              ltac:(okp_hyps) ltac:(okp_hyps) ltac:(okp_hyps) ltac:(okp_hyps) ltac:(okp_hyps)
+              ltac:(okp_hyps) cmd ss s) as [H1 H2].
+  split; [apply RP_okp_fuel, H1 | exact H2].
+Qed.
+
+(* the command loop: fuel = 1 + number of inbound bytes is always enough *)
+Theorem run_total fuel ss s :
+  (inbound_len s < fuel)%nat -> fst (run_f fpext fptrunc errtab fuel ss s) <> RPanic POutOfFuel.
+Proof.
+  intro Hlt. apply RP_okp_fuel.
+  apply (run_f_safe okp fpext fptrunc errtab ltac:(okp_hyps) ltac:(okp_hyps) ltac:(okp_hyps)
+           ltac:(okp_hyps) ltac:(okp_hyps) ltac:(okp_hyps) ltac:(okp_hyps) ltac:(okp_hyps)
+           ltac:(okp_hyps) ltac:(okp_hyps) fuel ss (ilen s) Hlt s (le_n _)).
+Qed.
+Theorem run_on_total cfg sc s : fst (run_on fpext fptrunc errtab cfg sc s) <> RPanic POutOfFuel.
+Proof.
+  apply RP_okp_fuel.
+  apply (run_on_safe okp fpext fptrunc errtab); okp_hyps.
+Qed.
+
+(* every panic of a whole connection is one of the named data-reachable sites *)
+Definition client_sites : list site :=
+  [PFragSeq; PParamsSplitNull; PParamsSplitTypes; PParamsBadType; PParamsBoundIndex; PParamsValue].
+Definition shim_sites : list site := [PConv; PConvOverflow; PNullBin; PFromU16].
+Theorem run_on_panics cfg sc s p :
+  fst (run_on fpext fptrunc errtab cfg sc s) = RPanic p -> In p (client_sites ++ shim_sites).
+Proof.
+  intro E.
+  assert (H : RP okp (fst (run_on fpext fptrunc errtab cfg sc s)))
+    by (apply (run_on_safe okp fpext fptrunc errtab); okp_hyps).
+  rewrite E in H. exact H.
+Qed.
+
+End WithOracles.
+
+Print Assumptions run_on_total.
+Print Assumptions run_on_panics.
+Print Assumptions next_total.
+Print Assumptions next_consumes.
+Print Assumptions write_all_total.
+Print Assumptions packet_total.
+Print Assumptions next_panics.
+Print Assumptions run_q_total.
+Print Assumptions handle_total.
+Print Assumptions run_total.
